@@ -187,6 +187,163 @@ def rule_shared(rep: Report, rid="C15.shared") -> None:
     rule_no_mutable_defaults(rep, rid)
 
 
+MEMO_DECORATORS = ("lru_cache", "cache", "cached_property")
+
+
+def _decorator_name(d):
+    if isinstance(d, ast.Call):
+        d = d.func
+    return d.attr if isinstance(d, ast.Attribute) else (d.id if isinstance(d, ast.Name) else "")
+
+
+def rule_memo(rep: Report, rid="C15.memo") -> None:
+    """A memoised function (functools.lru_cache / cache / cached_property) may depend only on its arguments: it reads no
+    attribute that is assigned anywhere after construction and no module-level object that is changed in place - otherwise
+    the remembered answer outlives the state it was computed from."""
+    f = facts()
+    n = 0
+    for fi in _pkg_functions():
+        decs = [_decorator_name(d) for d in fi.node.decorator_list]
+        memo = [d for d in decs if d in MEMO_DECORATORS]
+        if not memo:
+            continue
+        n += 1
+        ps = fi.params()
+        # attributes written outside constructors, per attribute name (any class: the receiver's class is not always known)
+        late = set()
+        for other in _pkg_functions():
+            if other.name in ("__init__", "__new__", "__post_init__"):
+                continue
+            for x in ast.walk(other.node):
+                if isinstance(x, ast.Attribute) and isinstance(x.ctx, (ast.Store, ast.Del)):
+                    late.add(x.attr)
+                if isinstance(x, ast.Call) and isinstance(x.func, ast.Attribute) and x.func.attr in Interp.MUTATORS and isinstance(x.func.value, ast.Attribute):
+                    late.add(x.func.value.attr)
+        stale = []
+        for x in ast.walk(fi.node):
+            if isinstance(x, ast.Attribute) and isinstance(x.ctx, ast.Load) and isinstance(x.value, ast.Name) and x.value.id in ps and x.attr in late:
+                stale.append(f"{x.value.id}.{x.attr} (line {x.lineno})")
+        rep.ob(rid, f"memoised {fi.qualname} depends only on its arguments (no attribute that changes after construction)", not stale, file=fi.file,
+               line=fi.node.lineno, function=fi.qualname, expected="pure function of hashable arguments", found=sorted(set(stale)) or "no mutable state read")
+    rep.counts["memoised functions inspected"] = n
+
+
+ONE_SHOT = ("chain", "map", "filter", "zip", "iter", "reversed", "enumerate", "islice", "accumulate", "takewhile", "dropwhile", "starmap",
+            "from_iterable", "finditer", "zip_longest", "groupby", "pairwise")
+CONSUMERS = ("list", "tuple", "sorted", "set", "frozenset", "sum", "any", "all", "max", "min", "dict", "join", "extend", "deque")
+PARTIAL = ("next", "islice", "zip", "takewhile", "dropwhile")
+
+
+def rule_iterators(rep: Report, rid="C15.iter", files=None) -> None:
+    """A one-shot iterator (chain/map/filter/zip/generator ...) bound to a local name yields its elements once.  It must not be
+    walked again on a later round of a loop it was created outside of (directly, or by handing it to a call made there), nor
+    walked to the end twice in a row: the second walk sees nothing."""
+    from ..astutil import walk_no_nested_defs
+    f = facts()
+    gens = {fn.qualname for fn in f.all_functions() if any(isinstance(x, (ast.Yield, ast.YieldFrom)) for x in walk_no_nested_defs(fn.node))}
+    nb = 0
+    for fi in _pkg_functions():
+        if files is not None and fi.file not in files:
+            continue
+        parents = {}
+        for p_ in ast.walk(fi.node):
+            for ch in ast.iter_child_nodes(p_):
+                parents[ch] = p_
+
+        def one_shot(v):
+            if isinstance(v, ast.GeneratorExp):
+                return True
+            if isinstance(v, ast.Call):
+                nm = v.func.attr if isinstance(v.func, ast.Attribute) else (v.func.id if isinstance(v.func, ast.Name) else "")
+                if nm in ONE_SHOT:
+                    return True
+                r = None
+                if isinstance(v.func, ast.Name):
+                    r = f.resolve_name(fi.module, v.func.id)
+                    if r is not None and r[0] == "func" and r[1].qualname in gens:
+                        return True
+                if isinstance(v.func, ast.Attribute) and isinstance(v.func.value, ast.Name) and fi.cls is not None and fi.params() and v.func.value.id == fi.params()[0]:
+                    m = fi.cls.find_method(v.func.attr)
+                    if m is not None and m.qualname in gens:
+                        return True
+            return False
+
+        def loops_of(node):
+            out = []
+            cur = node
+            while cur in parents:
+                par = parents[cur]
+                if isinstance(par, (ast.For, ast.While)) and cur in par.body + par.orelse:
+                    out.append(par)
+                if isinstance(par, (ast.ListComp, ast.SetComp, ast.DictComp, ast.GeneratorExp)) and (cur is not par.generators[0].iter) \
+                        and not (isinstance(cur, ast.comprehension) and cur is par.generators[0]):
+                    out.append(par)
+                cur = par
+            return out
+        binds = {}
+        for x in walk_no_nested_defs(fi.node):
+            if isinstance(x, ast.Assign) and len(x.targets) == 1 and isinstance(x.targets[0], ast.Name):
+                binds.setdefault(x.targets[0].id, []).append(x)
+            elif isinstance(x, ast.AnnAssign) and isinstance(x.target, ast.Name) and x.value is not None:
+                binds.setdefault(x.target.id, []).append(x)
+        for name, bs in binds.items():
+            if not all(one_shot(b.value) for b in bs):
+                continue            # also bound to something re-iterable: not tracked
+            nb += 1
+            for b in bs:
+                bloops = loops_of(b)
+                full = []
+                for u in walk_no_nested_defs(fi.node):
+                    if not (isinstance(u, ast.Name) and u.id == name and isinstance(u.ctx, ast.Load)) or u.lineno < b.lineno:
+                        continue
+                    par = parents.get(u)
+                    callee = ""
+                    if isinstance(par, ast.Call) and u in par.args:
+                        callee = par.func.attr if isinstance(par.func, ast.Attribute) else (par.func.id if isinstance(par.func, ast.Name) else "")
+                    if callee in PARTIAL:
+                        continue            # takes some elements only: sharing the iterator is the point
+                    uloops = [l for l in loops_of(u) if l not in bloops]
+                    iter_src = (isinstance(par, (ast.For, ast.comprehension)) and par.iter is u) or callee in CONSUMERS or isinstance(par, ast.Starred)
+                    if isinstance(par, ast.For) and par.iter is u:
+                        uloops = [l for l in uloops if l is not par]
+                    if uloops and not isinstance(par, (ast.Compare, ast.BoolOp, ast.UnaryOp, ast.If, ast.While, ast.IfExp)):
+                        rep.ob(rid, f"one-shot iterator '{name}' is not walked again on later rounds of a loop", False, file=fi.file, line=u.lineno,
+                               function=fi.qualname, expected=f"a list (or the iterator created inside the loop): it is created at line {b.lineno}, outside the loop at line {uloops[-1].lineno}",
+                               found=ast.unparse(par)[:100])
+                    elif iter_src:
+                        full.append(u)
+                if len(full) > 1:
+                    # two complete walks: fine only when they sit in different arms of one if
+                    def arms(u):
+                        out, cur = [], u
+                        while cur in parents:
+                            par = parents[cur]
+                            if isinstance(par, ast.If):
+                                out.append((par, "body" if cur in par.body else ("else" if cur in par.orelse else "test")))
+                            cur = par
+                        return out
+                    a0, a1 = arms(full[0]), arms(full[1])
+                    exclusive = any(i0 is i1 and s0 != s1 and "test" not in (s0, s1) for i0, s0 in a0 for i1, s1 in a1)
+                    if not exclusive:
+                        rep.ob(rid, f"one-shot iterator '{name}' is walked to the end once", False, file=fi.file, line=full[1].lineno, function=fi.qualname,
+                               expected="one complete walk (or a list)", found=f"walked at lines {full[0].lineno} and {full[1].lineno}")
+    rep.ob(rid, "no one-shot iterator is walked more than once", True, file="python/gherkin", function="(all functions)", expected="single consumption",
+           found=f"{nb} local iterator binding(s) inspected")
+
+
+def rule_stateless(rep: Report, prefix: str) -> None:
+    """Nothing survives from one call / instance / document to the next except through the documented state: the rules every
+    property depends on, because any hidden state makes a second use behave differently from the first."""
+    from . import matcher_rules as mr, dialect_rules as dr
+    mr.rule_reset(rep, f"{prefix}.reset", classes=(mr.MQ, "gherkin.token_matcher_markdown.GherkinInMarkdownTokenMatcher",
+                                                  "gherkin.ast_builder.AstBuilder", "gherkin.token_formatter_builder.TokenFormatterBuilder"))
+    rule_inst(rep, f"{prefix}.inst")
+    rule_shared(rep, f"{prefix}.shared")
+    dr.rule_shared_table(rep, f"{prefix}.shared")
+    rule_memo(rep, f"{prefix}.memo")
+    rule_iterators(rep, f"{prefix}.iter")
+
+
 def rule_inst(rep: Report, rid="C15.inst") -> None:
     """Parser and Compiler carry no per-parse state: nothing reachable from parse()/compile() writes their attributes."""
     f = facts()
